@@ -6,6 +6,7 @@ import TmVerif.Master.Model
 import TmVerif.Master.SrvState
 import TmVerif.Master.LoaderDecode
 import TmVerif.Traits.Model
+import TmVerif.Master.Events
 open TmVerif TmVerif.Proto TmVerif.Sched TmVerif.Master
 
 def sortNats (l : List Nat) : List Nat := (l.toArray.qsort (· < ·)).toList
@@ -351,11 +352,42 @@ def line (ws : List String) : Option String :=
   | _ => none
 end TraitLines
 
+/-! Function-level lines of the event plumbing (`TmVerif.Events`):
+      fevs <event node names csv> <resources with a handler csv>   -> order=<names ;-separated> del=<names csv sorted>
+      fschd <current ids csv> <listed ids csv>                     -> rm=<csv> load=<csv>
+      fsrvs <listed ids csv> <loaded ids csv> <stored ids csv>     -> reload=<csv> -/
+namespace EventLines
+open TmVerif.Events
+
+def sortStrs (l : List String) : List String := (l.toArray.qsort (· < ·)).toList
+
+def line (ws : List String) : Option String :=
+  match ws with
+  | ["fevs", names, res] =>
+    let ns := csv names
+    let known := csv res
+    let plan := eventPlan (ns.map String.toList)
+    let handled := plan.filter (fun e => known.contains (String.ofList e.2.1))
+    let nm := fun (e : List Char × List Char × List Char) =>
+      String.ofList e.1 ++ "-" ++ String.ofList e.2.1 ++ "-" ++ String.ofList e.2.2
+    let order := if handled.isEmpty then "-" else String.intercalate ";" (handled.map nm)
+    some s!"order={order} del={showCsv (sortStrs ns)}"
+  | ["fschd", cur, tgt] => do
+    let r := scheduledPlan (← natList? cur) (← natList? tgt)
+    pure s!"rm={showNats (sortNats r.1)} load={showNats (sortNats r.2)}"
+  | ["fsrvs", listed, loaded, stored] => do
+    let r := serversPlan (← natList? listed) (← natList? loaded) (← natList? stored)
+    pure s!"reload={showNats (sortNats r)}"
+  | _ => none
+end EventLines
+
 def stepLine' (s : DSt) (ws : List String) : DSt × String :=
   match ws with
   | w :: _ =>
     if w = "fadj" || w = "fevt" || w = "fpres" || w = "fpend" then
       (s, (SrvLines.line ws).getD "bad-op")
+    else if w = "fevs" || w = "fschd" || w = "fsrvs" then
+      (s, (EventLines.line ws).getD "bad-op")
     else if w = "ftrt" || w = "fcode" then
       (s, (TraitLines.line ws).getD "bad-op")
     else if w = "fapp" || w = "fbkt" || w = "fsrv" || w = "fidg" || w = "frld" then
